@@ -111,11 +111,11 @@ class Graph:
 _fx_cache = {}
 
 
-def fx_of(facts, fn):
-    k = (id(facts), fn['key'])
+def fx_of(facts, fn, snapshots=False):
+    k = (id(facts), fn['key'], snapshots)
     r = _fx_cache.get(k)
     if r is None:
-        r = FnExprs(facts, fn)
+        r = FnExprs(facts, fn, snapshots)
         _fx_cache[k] = r
     return r
 
@@ -173,11 +173,14 @@ def _default_body(facts, tr, meth):
     return _default_cache[k]
 
 
-def build(facts, root_key, max_depth=MAX_DEPTH, inline=True, no_inline=(), defaults=False, forward=False):
+def build(facts, root_key, max_depth=MAX_DEPTH, inline=True, no_inline=(), defaults=False, forward=False, snapshots=False):
+    """snapshots=True: user-named integer/bool locals computed from memory keep their identity (their assignment is a node) instead of
+    being replaced by their defining expression at each use — for rules that interpret field reads at the point of use (tables.py)"""
     g = Graph(facts, root_key)
     g.defaults = defaults
+    g.snapshots = snapshots
     fn = facts.fns[root_key]
-    fx = fx_of(facts, fn)
+    fx = fx_of(facts, fn, snapshots)
     amap = {}
     entry = g.new('entry', root_key, ())
     g.entry = entry['id']
@@ -242,6 +245,23 @@ def _forward_single_returns(g):
         if e[0] == 'agg' and e[1] == 'tuple' and not e[3]:
             continue      # unit
         alias[v[3]] = e
+    # a closure handed to Option::and_then / Option::map with one return site: the combinator's value is what the closure returns
+    for n in g.nodes:
+        if n['kind'] != 'exit' or n.get('name') != '<closure>' or n.get('via') not in ('std::option::Option::and_then', 'std::option::Option::map'):
+            continue
+        cctx = n['ctx'] + ((n['fn'], n['bb'], n['body']),)
+        defs = by_ctx.get(cctx, [])
+        if len(defs) != 1:
+            continue
+        kind, d = defs[0]
+        e = d['rhs'] if kind == 'a' else d['value']
+        comb = [x for x in g.nodes if x['kind'] == 'call' and x['fn'] == n['fn'] and x['bb'] == n['bb'] and x['ctx'] == n['ctx'] and x['name'] == n['via'] and x.get('value')]
+        if len(comb) != 1 or comb[0]['value'][0] != 'call':
+            continue
+        if n['via'].endswith('and_then'):
+            alias[comb[0]['value'][3]] = e
+        else:
+            alias[comb[0]['value'][3]] = ('agg', 'adt', 'std::option::Option::Some', (e,), comb[0]['value'][3], ())
     if not alias:
         return
 
@@ -288,7 +308,7 @@ def _inline(g, key, amap, ctx, depth, max_depth, do_inline, no_inline):
     """returns (first node id, [ids of nodes that return], [ids of nodes that unwind out])"""
     facts = g.facts
     fn = facts.fns[key]
-    fx = fx_of(facts, fn)
+    fx = fx_of(facts, fn, getattr(g, 'snapshots', False))
 
     def tr(e):
         e = qualify_locals(e, ctx) if ctx else e
@@ -303,7 +323,7 @@ def _inline(g, key, amap, ctx, depth, max_depth, do_inline, no_inline):
             if s['k'] == 'assign':
                 pl = s['pl']
                 lhs_local = pl['l']
-                interesting = bool(pl['p']) or lhs_local == 0 or len(fx.defs.get(lhs_local, [])) > 1 or lhs_local in fx.partial
+                interesting = bool(pl['p']) or lhs_local == 0 or len(fx.defs.get(lhs_local, [])) > 1 or lhs_local in fx.partial or lhs_local in fx.kept
                 if not interesting:
                     continue
                 if pl['p']:
